@@ -9,6 +9,10 @@
    every schedule of start / message / executor / post-commit-queue deliveries and operator
    pause / resume / stop at any point (C01_no_stuck_joinfree, the no-lost-wake-up invariant of
    Proofs/EngineLive.v; extending it to resume exposed defects F19 and F20).
+   "The tasks that ran with their final states are the ones the workflow language defines" is PROVED
+   for join-free, forward (acyclic), command-free programs whose guards evaluate (C01_prescribed_tasks_ran:
+   at quiescence every task has run exactly den(sp) times with exactly the prescribed multiset of final
+   states, den being computed from the definition alone; Proofs/EngineDen.v).
    NOT proved: the same statement for programs with joins (C01_no_stuck_statement, which needs the
    graph argument relating find_indirectly_affected_task_executions to _possible_route) and the
    equality of the final view with the denotational semantics.  Both are decided by the trace
@@ -17,7 +21,7 @@
 From Coq Require Import List Bool.
 Require Import Mistral.Gen.States Mistral.Model.Engine.
 Require Import Mistral.Proofs.StatesProofs Mistral.Proofs.EngineWf Mistral.Proofs.EngineSafety Mistral.Proofs.EngineMore
-               Mistral.Proofs.EngineLive.
+               Mistral.Proofs.EngineLive Mistral.Proofs.EngineDen.
 Import ListNotations.
 
 Theorem C01_internal_error_only_on_stale_message : forall sp s e,
@@ -93,6 +97,27 @@ Example C01_no_stuck_after_two_pauses :
   forallb live_ev evs = true /\ pend s = [] /\ length (tasks s) = 2 /\ wf_state s = SUCCESS /\
   wf_state (run pause2_sp [1; 0] (firstn 8 evs)) = PAUSED /\ backlog (run pause2_sp [1; 0] (firstn 8 evs)) = [CRunExisting 0 true false].
 Proof. exact no_stuck_after_two_pauses. Qed.
+
+(* the functional clause for the class `simple_b` (join-free, every transition targets a later task, no
+   engine commands, guards true / false): whatever the delivery order, once nothing is pending task n has
+   run exactly `den sp`[n] times and the final states of its runs are the prescribed ones *)
+Theorem C01_prescribed_tasks_ran : forall sp, simple_b sp = true -> forall u evs,
+  forallb plain4 evs = true ->
+  let s := run sp u evs in
+  wf_created s = true -> pend s = [] ->
+  forall n, n < length sp ->
+    rows_named s n = nth n (den sp) 0 /\
+    Permutation.Permutation (states_named s n) (prescribed_states sp n (nth n (den sp) 0)).
+Proof. exact den_correct. Qed.
+Print Assumptions C01_prescribed_tasks_ran.
+
+Example C01_prescribed_tasks_ran_nonvacuous :
+  let evs := EStart :: drain_evs den_demo (fst (step den_demo init EStart)) 200 in
+  let s := run den_demo [] evs in
+  simple_b den_demo = true /\ forallb plain4 evs = true /\ wf_created s = true /\ pend s = [] /\
+  den den_demo = [1; 1; 2; 2] /\ map (rows_named s) [0; 1; 2; 3] = [1; 1; 2; 2] /\
+  states_named s 2 = [SUCCESS; ERROR] /\ 30 < length evs.
+Proof. exact den_demo_ok. Qed.
 
 (* the unproved part of the property, kept visible: the same for programs with joins *)
 Definition quiescent (s : st) : Prop := pend s = [].
